@@ -23,6 +23,7 @@ RULE = (
     "conic ones on full-row-rank matrices of bounded condition number. Non-trivial = (orth with a dense Q and m >= 2 "
     "with a conflicting pair) or (a column permutation moving >= 2 columns) or (span/zerocol with m >= 2). "
     "Distinct = distinct (configuration, J, relation, transformation)."
+    " Half of the PCGrad cases run under torch.manual_seed only; zero-column insertions of up to 300 000 columns."
 )
 ASSUMPTIONS = [
     "JQ is formed in float64 and rounded to the dtype: the rounding is an input perturbation of relative size eps, "
